@@ -10,7 +10,7 @@ from vals import *
 
 
 class Rule:
-    def __init__(s): s.key = None; s.idx = None; s.kind = None; s.token = None; s.acq = None; s.rel = None; s.stop = None; s.src = ''
+    def __init__(s): s.key = None; s.idx = None; s.kind = None; s.token = None; s.acq = None; s.rel = None; s.stop = None; s.also = []; s.inv = None; s.src = ''
 
 
 def parse_rules(e):
@@ -37,6 +37,8 @@ def parse_rules(e):
             elif t == 'acquire': r.acq = (int(toks[i + 1]), int(toks[i + 2])); i += 3
             elif t == 'release': r.rel = int(toks[i + 1]); i += 2
             elif t == 'stop': r.stop = (int(toks[i + 1]), int(toks[i + 2])); i += 3
+            elif t == 'inv': r.inv = toks[i + 1]; i += 2
+            elif t == 'also': r.also.append((int(toks[i + 1]), int(toks[i + 2]))); i += 3
             else: raise Unsupported('%s: bad lockword clause %r' % (src, t))
         rules.append(r)
     return rules
@@ -90,9 +92,17 @@ def hook(e, fr, st, kind, loc, new, old, ins, site):
                 if (f, t) == r.acq:
                     st.wr(tk, tidx, BoolVal(True), B)
                     st.events.append(('acquire', r.token, loc.idx[0]))
+                    if r.inv:
+                        # lock invariant: holds whenever the lock is free; the acquirer may assume it and must restore it before releasing
+                        import cparse as _cp
+                        e.assumptions.add('lock invariant %s of %s: assumed at acquire, proved at every release' % (r.inv, r.key))
+                        env = {'st': st, 'old': None, 'vars': {'lk!c': (loc.idx[0], '*' + r.stype)}, 'fr': None}
+                        st.assume(e.ev_bool(('call', ('id', r.inv), [('id', 'lk!c')]), env))
                     return
                 if r.stop and (f, t) == r.stop:
                     return
+                if (f, t) in r.also and r.acq[1] not in (f, t):
+                    return   # a declared transition between values other than the held one: cannot take or release anybody's token
             e.oblige(st, fr, 'token.word', r.token, BoolVal(False), site, text='CAS on lock word %s is neither the declared acquire nor stop transition' % r.key)
             return
         if kind == 'casfail':
@@ -103,6 +113,11 @@ def hook(e, fr, st, kind, loc, new, old, ins, site):
                 sealed_key = e.skey(r.stype) + '.sealed_' + r.token
                 sealed = st.rd(sealed_key, tidx, B) if (r.stype and ('%s.sealed_%s' % (e.skey(r.stype).split('.')[-1], r.token)) in e.c.ghostfields) else BoolVal(False)
                 e.oblige(st, fr, 'token.release', r.token, And(held, Not(sealed)), site, text='releasing store on %s requires holding the %s token (not sealed)' % (r.key, r.token))
+                if r.inv:
+                    env = {'st': st, 'old': None, 'vars': {'lk!c': (loc.idx[0], '*' + r.stype)}, 'fr': None}
+                    import cparse as _cp
+                    for gi_, part_ in enumerate(e.split_conj(('call', ('id', r.inv), [('id', 'lk!c')]))):
+                        e.oblige(st, fr, 'token.inv', '%s.%d' % (r.inv, gi_ + 1), e.ev_bool(part_, env), site, text='lock invariant %s restored before releasing %s: %s' % (r.inv, r.key, _cp.show(part_)))
                 st.wr(tk, tidx, BoolVal(False), B)
                 st.events.append(('release', r.token, loc.idx[0]))
                 return
